@@ -82,6 +82,10 @@ class EvalContext(NamedTuple):
 
     stats_time: Dict[ProcessingStage, float]
 
+    # The paths loaded by the evaluation that are not produced by it, with the key that each of them
+    # designated when the code was analyzed. These keys are part of the signatures of the evaluation.
+    loaded_paths: Dict[DDSPath, PyHash]
+
 
 # The name of a codec protocol.
 ProtocolRef = NewType("ProtocolRef", str)
